@@ -234,12 +234,30 @@ pub fn run(ctx: &Ctx, rep: &mut Report) {
         switch_branch(&mut w, &mut rng, depth, depth + extra);
       }
       let mut result = catch(|| index.update());
-      if mid_update && matches!(result, Ok(Ok(()))) {
-        // the switch happened while that update was running (it may have
-        // finished on prefetched blocks of the old branch); the statement is
-        // about the *next* update
-        hooks.configure(|st| st.counts.clear());
-        result = catch(|| index.update());
+      let action_fired_in_flight = hooks.0.lock().map(|st| st.action_at.is_none()).unwrap_or(true);
+      if mid_update && action_fired_in_flight && !matches!(&result, Err(p) if p.contains(FUSE_MARKER)) {
+        // the switch happened while that update was running: it may have
+        // finished on prefetched blocks of the old branch, or failed because
+        // the node no longer serves the old branch (missing input
+        // transactions, blocks of both branches in one uncommitted batch).
+        // The statement is about the *next* update, which is judged below on
+        // whatever the in-flight one left behind.
+        match &result {
+          Ok(Ok(())) => rep.count("inflight_update_finished"),
+          Ok(Err(e)) => {
+            rep.count("inflight_update_returned_error");
+            rep.seen("inflight_update_failures", format!("error: {}", panic_signature(&format!("{e:#} @ "))));
+          }
+          Err(p) => {
+            rep.count("inflight_update_panicked");
+            rep.seen("inflight_update_failures", format!("panic: {}", panic_signature(p)));
+          }
+        }
+        let reported_unrecoverable = matches!(&result, Ok(Err(e)) if format!("{e:#}").contains("unrecoverable reorg"));
+        if !reported_unrecoverable {
+          hooks.configure(|st| st.counts.clear());
+          result = catch(|| index.update());
+        }
       }
       let trace = hooks.trace();
       let action_fired = hooks.0.lock().map(|st| st.action_at.is_none()).unwrap_or(true);
@@ -321,8 +339,17 @@ pub fn run(ctx: &Ctx, rep: &mut Report) {
               let mut at_detection = savepoints_before.clone();
               let upto = trace.iter().position(|(n, _, _)| *n == "reorg.recoverable").unwrap_or(trace.len());
               absorb(&trace[..upto], &mut at_detection);
+              // direct observation first: the block count right after restoring the
+              // oldest savepoint (hook point rollback.after_commit); the replayed
+              // savepoint bookkeeping is only descriptive. With pending old-branch
+              // blocks indexed before a mid-update switch the fork is still
+              // `height - depth` (the tip before they were mined).
               let fork = u64::from(height - depth); // last common height
-              let usable = at_detection.first().is_some_and(|h| *h <= fork + 1);
+              let restored_to: Vec<u64> = trace.iter().filter(|(n, _, _)| *n == "rollback.after_commit").map(|(_, _, b)| *b).collect();
+              let usable = match restored_to.first() {
+                Some(count) => *count <= fork + 1,
+                None => at_detection.first().is_some_and(|h| *h <= fork + 1),
+              };
               let sig = if usable { "C14/classified-recoverable-but-reported-unrecoverable" } else { "C14/classified-recoverable-but-oldest-savepoint-above-fork" };
               rep.violation(
                 sig,
